@@ -1,3 +1,137 @@
-import GV.Model.Engine
+/-
+  Props/C18.lean — Ack timeouts and the interrupted-retry limit fire exactly when specified.
+  About Model/Engine.lean: `start_operation_ack_timeout`, `on_current_operation_fully_written`,
+  `process_ack_timeouts`, `update_interrupted_retries`, `fail_operations_exceeding_max_interruption_limit`.
+-/
+import GV.Proofs.EngineBasics
 namespace GV.Props.C18
+open GV
+
+/-- **The clock starts when the packet has been completely written** (time spent queued does not count):
+    the deadline recorded is the time of that moment plus T; operations without a timeout record nothing. -/
+theorem timeout_armed_at_write (e : Engine) (id : Nat) (o : Op) (idx t : Nat) (ho : e.op? id = some o)
+    (hu : o.user = some (idx, some t)) : (e.startAckTimeout id).timeouts = e.timeouts ++ [(id, e.now + t)] := by
+  simp [Engine.startAckTimeout, ho, hu]
+
+theorem no_timeout_no_record (e : Engine) (id : Nat) (o : Op) (ho : e.op? id = some o)
+    (hu : o.user = none ∨ ∃ idx, o.user = some (idx, none)) : (e.startAckTimeout id).timeouts = e.timeouts := by
+  rcases hu with h | ⟨idx, h⟩ <;> simp [Engine.startAckTimeout, ho, h]
+
+theorem completeFailure_keeps_clock (e : Engine) (id : Nat) (k : String) :
+    (e.completeFailure id k).1.timeouts = e.timeouts ∧ (e.completeFailure id k).1.now = e.now ∧
+    (e.completeFailure id k).1.current = e.current :=
+  let h := completeFailure_same e id k
+  ⟨h.timeouts, h.now, h.current⟩
+
+/-- the record chosen by `process_ack_timeouts` is one of the recorded ones -/
+theorem nextAckTimeout_mem (e : Engine) (x : Nat × Nat) (h : e.nextAckTimeout = some x) : x ∈ e.timeouts := by
+  unfold Engine.nextAckTimeout at h
+  have key : ∀ (l : List (Nat × Nat)) (init : Option (Nat × Nat)) (x : Nat × Nat),
+      l.foldl (fun best x => match best with | none => some x | some b => if x.2 < b.2 then some x else some b) init = some x →
+      x ∈ l ∨ init = some x := by
+    intro l
+    induction l with
+    | nil => intro init x h; right; simpa using h
+    | cons y ys ih =>
+      intro init x h
+      simp only [List.foldl] at h
+      rcases ih _ x h with h1 | h1
+      · left; exact List.mem_cons_of_mem _ h1
+      · cases init with
+        | none => simp at h1; left; rw [h1]; exact List.mem_cons_self ..
+        | some b =>
+          simp only at h1
+          split at h1
+          · simp at h1; left; rw [h1]; exact List.mem_cons_self ..
+          · right; exact h1
+  rcases key e.timeouts none x h with h1 | h1
+  · exact h1
+  · simp at h1
+
+/-- **Never earlier than T.**  Whatever else happens in a service call, a recorded timeout whose deadline has
+    not been reached is still recorded afterwards — its operation is not failed by the timeout pass. -/
+theorem not_before_deadline : ∀ (fuel : Nat) (e : Engine) (x : Nat × Nat), x ∈ e.timeouts → x.2 > e.now →
+    x ∈ (Engine.processAckTimeouts fuel e).1.timeouts
+  | 0, e, x, hx, _ => by simpa [Engine.processAckTimeouts] using hx
+  | fuel + 1, e, x, hx, hlate => by
+    simp only [Engine.processAckTimeouts]
+    cases hn : e.nextAckTimeout with
+    | none => simpa using hx
+    | some nd =>
+      obtain ⟨id, deadline⟩ := nd
+      simp only []
+      split
+      · rename_i hdue
+        simp only [Bool.and_eq_true, decide_eq_true_eq] at hdue
+        have hk := completeFailure_keeps_clock { e with timeouts := e.timeouts.erase (id, deadline) } id "AckTimeout"
+        have hne : x ≠ (id, deadline) := by
+          intro heq; rw [heq] at hlate; simp only at hlate; omega
+        have hx' : x ∈ ({ e with timeouts := e.timeouts.erase (id, deadline) }.completeFailure id "AckTimeout").1.timeouts := by
+          rw [hk.1]; exact (List.mem_erase_of_ne hne).mpr hx
+        have hl' : x.2 > ({ e with timeouts := e.timeouts.erase (id, deadline) }.completeFailure id "AckTimeout").1.now := by
+          rw [hk.2.1]; exact hlate
+        exact not_before_deadline fuel _ x hx' hl'
+      · simpa using hx
+
+/-- **The operation still being written is not timed out**: the pass stops at it. -/
+theorem current_operation_deferred (fuel : Nat) (e : Engine) (id d : Nat) (hn : e.nextAckTimeout = some (id, d))
+    (hc : e.current = some id) : Engine.processAckTimeouts (fuel + 1) e = (e, .ok) := by
+  simp [Engine.processAckTimeouts, hn, hc]
+
+/-- **Never if the acknowledgement arrived first**: once an operation has completed it is no longer tracked,
+    and a timeout record that outlives it fails nothing and reports nothing. -/
+theorem stale_timeout_is_noop (e : Engine) (id : Nat) (k : String) (h : e.op? id = none) :
+    e.completeFailure id k = (e, .ok) := by
+  simp [Engine.completeFailure, h]
+
+/-- **A due timeout fails its operation with the ack-timeout error** (user operation, still tracked, not the
+    one being written). -/
+theorem due_timeout_fails_operation (fuel : Nat) (e : Engine) (id d idx : Nat) (o : Op) (t : Option Nat)
+    (hn : e.nextAckTimeout = some (id, d)) (hdue : d ≤ e.now) (hc : e.current ≠ some id)
+    (ho : e.op? id = some o) (hu : o.user = some (idx, t)) (hnd : isDisconnect o.packet = false)
+    (hss : o.slowStart = 0) :
+    ∃ e1, ({ e with timeouts := e.timeouts.erase (id, d) } : Engine).completeFailure id "AckTimeout" = (e1, .ok) ∧
+      e1.outComps = e.outComps ++ [(idx, .err "AckTimeout")] ∧ e1.op? id = none := by
+  have ho' : ({ e with timeouts := e.timeouts.erase (id, d) } : Engine).op? id = some o := ho
+  have hA : ∀ en : Engine, en.applyAckable o = some en := by
+    intro en; simp [Engine.applyAckable, hss]
+  have hD : ∀ en : Engine, en.applyDisconnectCompletion o = (en, .ok) := by
+    intro en; simp [Engine.applyDisconnectCompletion, hnd]
+  simp only [Engine.completeFailure, ho', hA, hD, hu, Res.isOk, Bool.not_true, Bool.false_eq_true, ↓reduceIte]
+  refine ⟨_, rfl, ?_, ?_⟩
+  · simp [Engine.emit, (releaseIds_ops _ o).2.1]
+  · simp [Engine.emit, Engine.op?, (releaseIds_ops _ o).1, lookup_mapErase_self]
+
+/-! ### interrupted-retry limit -/
+
+/-- **Every disconnection adds one interruption to each operation that was sent but unacknowledged** (and
+    to no other operation) when a limit is configured. -/
+theorem interruption_counted (e e' : Engine) (limit : Nat) (hl : e.cfg.maxRetries = some limit)
+    (h : e.updateInterrupted = some e') (id : Nat) (o : Op) (ho : (id, o) ∈ e.ops) :
+    (id, { o with interruptions := o.interruptions + ((e.pendingNonPub.map (·.2)) ++ (e.pendingPub.map (·.2))).count id }) ∈ e'.ops := by
+  simp only [Engine.updateInterrupted, hl, Option.isNone_some, Bool.false_eq_true, ↓reduceIte] at h
+  split at h
+  · simp only [Option.some.injEq] at h
+    subst h
+    simp only [List.mem_map]
+    exact ⟨(id, o), ho, rfl⟩
+  · simp at h
+
+theorem no_limit_no_counting (e : Engine) (hl : e.cfg.maxRetries = none) : e.updateInterrupted = some e ∧ e.failExceeding = (e, .ok) := by
+  simp [Engine.updateInterrupted, Engine.failExceeding, hl]
+
+/-- the operations failed for exceeding the limit are exactly the unacknowledged ones whose count is above it -/
+theorem exceeding_selection (e : Engine) (limit : Nat) (m : List (Nat × Nat)) (id : Nat) :
+    id ∈ (m.map (·.2)).filter (fun id => match e.op? id with | some o => o.interruptions > limit | none => false) ↔
+    (id ∈ m.map (·.2) ∧ ∃ o, e.op? id = some o ∧ o.interruptions > limit) := by
+  simp only [List.mem_filter]
+  constructor
+  · rintro ⟨hm, hf⟩
+    refine ⟨hm, ?_⟩
+    cases ho : e.op? id with
+    | none => simp [ho] at hf
+    | some o => exact ⟨o, rfl, by simpa [ho] using hf⟩
+  · rintro ⟨hm, o, ho, hgt⟩
+    exact ⟨hm, by simp [ho, hgt]⟩
+
 end GV.Props.C18
